@@ -329,3 +329,156 @@ func isCtxDone(ch ssa.Value) (ssa.Value, bool) {
 	}
 	return nil, false
 }
+
+// eventChanRecv reports whether channel value ch is a load of a struct field
+// whose element type is the userCallbackEvent interface (the callback queue).
+func isEventChan(t types.Type) bool {
+	ch, ok := t.Underlying().(*types.Chan)
+	if !ok {
+		return false
+	}
+	return namedTypeName(ch.Elem()) == ".userCallbackEvent"
+}
+
+// checkCbLoopDrains: the callback loop may only return after a non-blocking
+// receive on the callback queue found it empty, or after the queue was closed
+// and drained. Otherwise queued (error / new-config / unregister) events are
+// silently dropped although the queue never overflowed.
+func (k *core) checkCbLoopDrains(rule string) {
+	c := k.c
+	f := k.cbLoop
+	n := 0
+	for _, r := range returnsOf(f) {
+		n++
+		ok := false
+		for _, ec := range condsDominating(r.Block()) {
+			if ec.Val {
+				continue
+			}
+			switch x := ec.Cond.(type) {
+			case *ssa.BinOp:
+				if x.Op != token.EQL {
+					continue
+				}
+				ex, okx := x.X.(*ssa.Extract)
+				idx, okc := constInt(x.Y)
+				if !okx || !okc || ex.Index != 0 {
+					continue
+				}
+				sel, oks := ex.Tuple.(*ssa.Select)
+				if !oks || sel.Blocking || int(idx) >= len(sel.States) {
+					continue
+				}
+				// the select's only way out besides this state must be `default`
+				st := sel.States[idx]
+				if st.Dir == types.RecvOnly && isEventChan(st.Chan.Type()) && len(sel.States) == 1 {
+					ok = true
+				}
+			case *ssa.Extract:
+				// v, ok := <-ch  (range over the queue): exit when !ok
+				if u, oku := x.Tuple.(*ssa.UnOp); oku && u.Op == token.ARROW && u.CommaOk && x.Index == 1 && isEventChan(u.X.Type()) {
+					ok = true
+				}
+			}
+		}
+		// `for ev := range ch` lowers to a Next-less receive: t = <-ch,ok ; if ok
+		c.check(ok, rule, relName(f)+"#return", r.Pos(),
+			"the callback loop returns only after a non-blocking receive found the queue empty (or the queue was closed and drained)",
+			"the callback loop can return while events are still queued (no empty-queue test dominates this return)")
+	}
+	if n == 0 {
+		c.ok(rule, relName(f)+"#return", f.Pos(), "the callback loop has no return (runs until the process exits)")
+	}
+}
+
+// skipFlagOrigins returns the non-phi origins of the value passed for the
+// bool (skipVerify) parameter of the storing function at its call sites in the
+// monitor.
+type flagOrigin struct {
+	V    ssa.Value
+	Kind string // "delay-load", "not-call", "other"
+	Fn   *ssa.Function
+}
+
+func (k *core) skipFlagOrigins() (args []ssa.Value, origins []flagOrigin) {
+	delay := k.w.field("", "Params", "DelayInitialVerification")
+	seen := map[ssa.Value]bool{}
+	var walk func(v ssa.Value)
+	walk = func(v ssa.Value) {
+		if seen[v] {
+			return
+		}
+		seen[v] = true
+		switch x := v.(type) {
+		case *ssa.Phi:
+			for _, e := range x.Edges {
+				walk(e)
+			}
+			return
+		case *ssa.UnOp:
+			if x.Op == token.NOT {
+				if call, ok := x.X.(*ssa.Call); ok {
+					if f := staticCallee(call); f != nil && k.w.inRepo(f) {
+						origins = append(origins, flagOrigin{V: v, Kind: "not-call", Fn: f})
+						return
+					}
+				}
+			}
+			if x.Op == token.MUL {
+				if a, ok := x.X.(*ssa.Alloc); ok {
+					for _, r := range *a.Referrers() {
+						if s, ok := r.(*ssa.Store); ok && s.Addr == a {
+							walk(s.Val)
+						}
+					}
+					return
+				}
+			}
+		}
+		if _, ok := isFieldLoad(v, delay); ok && delay != nil {
+			origins = append(origins, flagOrigin{V: v, Kind: "delay-load"})
+			return
+		}
+		origins = append(origins, flagOrigin{V: v, Kind: "other"})
+	}
+	for _, sf := range k.storeFns {
+		for _, ci := range callsToFn(k.monitor, sf) {
+			for ai, a := range ci.Common().Args {
+				if ai < len(sf.Params) {
+					if b, ok := sf.Params[ai].Type().Underlying().(*types.Basic); ok && b.Kind() == types.Bool {
+						args = append(args, a)
+						walk(a)
+					}
+				}
+			}
+		}
+	}
+	return
+}
+
+// checkSkipFlag: verification of re-stacks is skipped only while the delay is
+// in force: the flag is initialised from DelayInitialVerification alone and
+// otherwise only assigned the negation of the enable helper's result.
+func (k *core) checkSkipFlag(rule string) []flagOrigin {
+	c := k.c
+	args, origins := k.skipFlagOrigins()
+	name := relName(k.monitor) + "#skipVerify"
+	if len(args) == 0 {
+		c.bad(rule, name, k.monitor.Pos(), "the monitor does not pass a skip-verification flag to the storing function")
+		return nil
+	}
+	for _, o := range origins {
+		switch o.Kind {
+		case "delay-load":
+			c.ok(rule, name+"-init", o.V.Pos(), "flag initialised from Params.DelayInitialVerification")
+		case "not-call":
+			hasVerify := len(k.verifyInvokes(o.Fn)) > 0
+			c.check(hasVerify, rule, name+"-transition", o.V.Pos(),
+				"flag reassigned only to !"+relName(o.Fn)+"(...) (the enable helper, which invokes Verify)",
+				"flag reassigned from a function that never invokes Verify")
+		default:
+			c.bad(rule, name+"-origin", o.V.Pos(), "skip-verification flag can also take the value %s (only DelayInitialVerification and the negated enable result are allowed)", canon(o.V))
+		}
+	}
+	return origins
+}
